@@ -8,6 +8,9 @@ CONSTANTS Family,     \* which family of Programs.tla
 
 Fam == CASE Family = "derived-quick" -> DerivedFamily(FALSE)
          [] Family = "derived-full"  -> DerivedFamily(TRUE)
+         [] Family = "core-quick"    -> CoreFamily(2)
+         [] Family = "core-full"     -> CoreFamily(3)
+         [] Family = "fault"         -> FaultFamily
 FamSeq == SetToSeq(Fam)
 
 VARIABLES pid, pc, m, results
@@ -73,6 +76,24 @@ SingleLaw ==
         /\ LET e == ExpectedSingle(k, a) IN
              /\ results[1].out = e.ticks
              /\ results[1].r.k = "value" /\ Match(e.v, results[1].r.v) /\ Match(results[1].r.v, e.v)
+
+(* C01: the four spellings of one call agree (value or error kind, and the ticks of the operand) *)
+SpellingLaw ==
+  (Done /\ FamSeq[pid].tag[1] = "core") =>
+     /\ results[1].r.k = "none" /\ results[2].r.k = "none"
+     /\ \A i \in 4..6 : results[i] = results[3]
+     /\ Len(results[3].out) >= 0
+(* C08: the faulting form is stopped with an error of the corresponding kind in every calling
+   context; the interpreter keeps exactly the effects completed before it and goes on *)
+FaultLaw ==
+  (Done /\ FamSeq[pid].tag[1] = "fault") =>
+     LET n == Len(results)
+         pre == FamSeq[pid].tag[4]
+     IN /\ results[n - 4].r = [k |-> "error", kind |-> ExpectedKind(FamSeq[pid].tag[2])]
+        /\ results[n - 3].r = [k |-> "value", v |-> MkInt(pre + 1)]      \* the effect before the fault, none after
+        /\ results[n - 2].r = [k |-> "value", v |-> MkInt(7)]
+        /\ results[n].r = [k |-> "value", v |-> MkInt(pre + 2)]
+        /\ \A i \in 1..(n - 5) : results[i].r.k # "error"
 
 Emit == Done => PrintT(<<"VEC", ToJson([forms |-> Forms, tag |-> FamSeq[pid].tag, results |-> results])>>)
 =============================================================================
